@@ -171,12 +171,25 @@ structure StructCfg where
 /-- `ToStr(iter.Key())`: the key is handed over as a `reflect.Value`, so it is rendered by
 `fmt.Sprintf("%v", key)`: strings as they are, integers in decimal, bools as words; every other key
 kind (floats, arrays, structs, pointers …) is the residual `sprint` -/
-def keyStr (ext : Ext) : GoVal → M Bytes
-  | .str s => pure s
-  | .int _ z => pure (intToBytes z)
-  | .uint _ n => pure (natToBytes n)
-  | .bool v => pure (if v then b! "true" else b! "false")
-  | k => sprintExt ext k
+def keyStrScalar : GoVal → Option Bytes
+  | .str s => some s
+  | .int _ z => some (intToBytes z)
+  | .uint _ n => some (natToBytes n)
+  | .bool v => some (if v then b! "true" else b! "false")
+  | _ => none
+
+/-- `ToStr(iter.Key())`: `%v` of the key; a key of interface type prints as its dynamic value (so `1` and `"1"` in a
+`map[interface{}]T` are named alike) -/
+def keyStr (ext : Ext) (k : GoVal) : M Bytes :=
+  match keyStrScalar k with
+  | some s => pure s
+  | none =>
+    match k with
+    | .iface _ (some v) =>
+      (match keyStrScalar v with
+       | some s => pure s
+       | none => sprintExt ext k)
+    | _ => sprintExt ext k
 
 /-- "empty" as `required` sees a struct field: zero value, or a slice / array / map of length 0 -/
 def requiredEmpty (v : GoVal) : Bool :=
